@@ -3,7 +3,7 @@ import re
 from collections import defaultdict
 
 from ..check import Result
-from ..core import op_local, op_place, place_local, place_projs, proj_fields, value_preserving
+from ..core import op_local, op_place, op_const, place_local, place_projs, proj_fields, value_preserving
 from .. import sel
 from ..reviewed import REVIEWED
 
@@ -405,6 +405,17 @@ def r5d_siblings(ctx):
     for fid in sorted(sibs):
         for s in by_fn[fid]:
             st = stage_of(s)
+            if st == "name-only" and st in ref:
+                # the stage that takes a definition by name alone (imported names, last-resort fallbacks): whatever order the
+                # cascade imposes there (none: first registered; a ranking by origin: extremum) the siblings must impose too
+                a, b = (s.klass, s.key_field or ""), (ref[st].klass, ref[st].key_field or "")
+                if a == b:
+                    r.ok(sample={"stage": st, "sibling": fid.split("::")[-1], "class": s.klass})
+                else:
+                    r.violate("R5d|%s|name-only stage: %s(%s) vs %s(%s)" % (fid, a[0], a[1], b[0], b[1]),
+                              "%s takes %s%s among the definitions of an imported / unresolved name, navigation takes %s%s" % (
+                                  fid.split("::")[-1], a[0], (" by " + a[1]) if a[1] else "", b[0], (" by " + b[1]) if b[1] else ""))
+                continue
             if st not in ref or st in ("name-only", "other"):
                 continue
             key = "R5d|%s|%s stage: %s vs %s" % (fid, st, s.klass, ref[st].klass)
@@ -792,4 +803,239 @@ def r5i_per_document_items_pinned(ctx):
                 r.violate(key, "%s builds a %s at %s from a FixtureDefinition without comparing its file_path: definitions of other "
                                "files are reported at positions of the requested document" % (f.root.split("::")[-1], item, crate.span_str(sp)))
     r.floor("uri-less items built from definitions", n, 1)
+    # items that DO carry a uri: a search among already built items (to merge / de-duplicate) reads the uri
+    m = 0
+    for f in crate.real_fns():
+        for bb, c in f.calls():
+            meth = (c.get("fn") or "").rsplit("::", 1)[-1]
+            if meth not in ("find", "position", "any", "rposition", "find_map", "retain", "dedup_by", "dedup_by_key", "contains"):
+                continue
+            for cid, loc in c.get("clos", []):
+                cf = crate.fns.get(cid)
+                if cf is None:
+                    continue
+                owners = defaultdict(set)
+                for g in [cf] + [x for x in crate.real_fns() if x.root == cf.root and x.id.startswith(cf.id + "::")]:
+                    for b in g.blocks:
+                        places = []
+                        for st in b["s"]:
+                            if st[0] == "=":
+                                places += [pl for pl in sel._rv_places(st[2]) if pl is not None]
+                        if b["t"][0] == "call":
+                            places += [op_place(a) for a in b["t"][1]["args"] if op_place(a) is not None]
+                        for pl in places:
+                            for o, nm in proj_fields(place_projs(pl)):
+                                owners[o].add(nm)
+                lsp = {o: fs for o, fs in owners.items() if o.split("::")[-1] in URI_ITEMS}
+                if not lsp:
+                    continue
+                m += 1
+                reads_uri = any("uri" in fs for fs in lsp.values())
+                key = "R5i|%s|%s over %s without uri" % (f.root, meth, "+".join(sorted(o.split("::")[-1] for o in lsp)))
+                if reads_uri:
+                    r.ok()
+                else:
+                    r.violate(key, "%s searches built %s items by %s at %s without reading their uri: items of different "
+                                   "documents that agree on the compared fields are merged, and positions of one document are "
+                                   "reported under another" % (f.root.split("::")[-1], "/".join(sorted(o.split("::")[-1] for o in lsp)),
+                                                               sorted(set().union(*lsp.values())), crate.span_str(c["span"])))
+    r.counts["searches_over_uri_items"] = m
+    return r
+
+
+URI_ITEMS = {"CallHierarchyItem", "Location", "LocationLink", "SymbolInformation", "CallHierarchyIncomingCall", "CallHierarchyOutgoingCall",
+             "TextDocumentIdentifier", "WorkspaceSymbol"}
+
+
+# ------------------------------------------------------------------------------------------ R5j: records are compared whole
+def _def_field_of(f, op, depth=0):
+    """name of the FixtureDefinition field an operand reads (directly, or through refs / copies made in f)"""
+    p = op_place(op)
+    if p is None or depth > 6:
+        return None
+    for o, n in proj_fields(place_projs(p)):
+        if o == sel.DEF:
+            return n
+    l = place_local(p)
+    for d in f.whole_defs(l):
+        if d[0] == "assign" and d[3][0] == "ref":
+            x = _def_field_of(f, ["cp", d[3][2]], depth + 1)
+            if x:
+                return x
+        if d[0] == "assign" and d[3][0] == "use":
+            x = _def_field_of(f, d[3][1], depth + 1)
+            if x:
+                return x
+    return None
+
+
+def _fields_read(f, owner):
+    out = set()
+
+    def place(p):
+        if isinstance(p, list) and len(p) == 2 and isinstance(p[1], list):
+            for o, n in proj_fields(p[1]):
+                if o == owner:
+                    out.add(n)
+
+    def operand(o):
+        p = op_place(o)
+        if p is not None:
+            place(p)
+    for _bb, _si, _pl, rv, _sp in f.assigns():
+        if rv[0] == "ref":
+            place(rv[2])
+        elif rv[0] in ("use", "cast", "un"):
+            operand(rv[-1] if rv[0] != "use" else rv[1])
+        elif rv[0] == "bin":
+            operand(rv[2])
+            operand(rv[3])
+        elif rv[0] == "agg":
+            for o in rv[2]:
+                operand(o)
+    for _bb, c in f.calls():
+        for a in c["args"]:
+            operand(a)
+    return out
+
+
+def r5j_record_identity(ctx):
+    r = Result("R5j", "two FixtureDefinition records are the same definition only if they are equal as whole records: (i) the "
+                      "type's PartialEq reads every field of the struct (the derived comparison); (ii) a function that reads the "
+                      "usage index and attributes usages through the cascade never matches the resolved definition against its "
+                      "target by comparing a subset of fields pairwise -- with two definitions of one name in one file "
+                      "(name, file) does not identify the one go-to-definition lands on")
+    from ..facts import DbInfo
+    db = ctx.memo("dbinfo", lambda: DbInfo(ctx))
+    crate = ctx.bin
+    adt = crate.adts.get(sel.DEF)
+    eq = crate.fns.get("<%s as std::cmp::PartialEq>::eq" % sel.DEF)
+    if adt is None or eq is None:
+        r.anchor_missing("record equality", "no PartialEq implementation for %s in the crate" % sel.DEF)
+        return r
+    fields = [x["name"] for x in adt["variants"][0]["fields"]]
+    read = _fields_read(eq, sel.DEF)
+    missing = [x for x in fields if x not in read]
+    if missing:
+        r.violate("R5j|eq|ignores-fields", "PartialEq for %s does not compare %s: the exclusion of the current definition (`def != "
+                                           "excluded`) and the attribution of usages (`resolved == *definition`) merge distinct "
+                                           "definitions that agree on the compared fields" % (sel.DEF.split("::")[-1], missing[:6]),
+                  n=len(fields))
+    else:
+        r.ok(len(fields), sample={"eq_reads_fields": len(fields)})
+    r.floor("fields of the definition record", len(fields), 5)
+    readers = set()
+    for m in db.maps_where(lambda k, v: "FixtureUsage" in v):
+        for op in db.ops_by_map.get(m, []):
+            if op.mode == "S":
+                readers.add(op.fn.root)
+    n = 0
+    for root in sorted(readers):
+        for g in [g for g in crate.real_fns() if g.root == root]:
+            pairs = []
+            for bb, c in g.calls():
+                if c.get("fn") in ("std::cmp::PartialEq::eq", "std::cmp::PartialEq::ne") and len(c["args"]) == 2:
+                    a, b = _def_field_of(g, c["args"][0]), _def_field_of(g, c["args"][1])
+                    if a and a == b:
+                        pairs.append(a)
+                    elif a is None and b is None and any(sel.DEF in t for t in c.get("targs", [])[:1]):
+                        n += 1
+                        r.ok(sample={"whole_record_comparison_in": g.id.split("::")[-1]} if len(r.samples) < 4 else None)
+            for _bb, _si, _pl, rv, _sp in g.assigns():
+                if rv[0] == "bin" and rv[1] in ("Eq", "Ne"):
+                    a, b = _def_field_of(g, rv[2]), _def_field_of(g, rv[3])
+                    if a and a == b:
+                        pairs.append(a)
+            if pairs:
+                r.violate("R5j|%s|subset:%s" % (g.id, "+".join(sorted(set(pairs)))),
+                          "%s matches two definition records by comparing only %s" % (g.id, sorted(set(pairs))))
+    r.floor("whole-record comparisons in usage attribution", n, 1)
+    return r
+
+
+# ------------------------------------------------------------------------------------------ R5k: one source of truth
+def _ret_sources(f, depth_limit=12):
+    """defs that produce the returned value, through plain copies / moves of whole locals"""
+    out = []
+    seen = set()
+
+    def walk(l, depth):
+        if l in seen or depth > depth_limit:
+            return
+        seen.add(l)
+        for d in f.whole_defs(l):
+            if d[0] == "assign" and d[3][0] == "use" and op_local(d[3][1]) is not None and not place_projs(op_place(d[3][1])):
+                walk(op_local(d[3][1]), depth + 1)
+            else:
+                out.append(d)
+    walk(0, 0)
+    return out
+
+
+def r5k_single_source(ctx):
+    r = Result("R5k", "(i) an entry point of the navigation cascade (a function that calls the resolver core with a filter closure "
+                      "and has the core's result type) returns exactly what the core returns: no second source (a cached list, a "
+                      "sibling's result) on any path -- a second source has tie-breaks of its own (first vs last definition in a "
+                      "file) and answers differently depending on which request came first. (ii) a bool predicate over the import "
+                      "closure of a file (it calls the memoised import computation, by role: returns a set of names and threads "
+                      "a visited set of paths) returns exactly a `contains` on that computation's result: a fast path through "
+                      "another index (the recorded import names) over-approximates and makes navigation disagree with the "
+                      "per-file view")
+    crate = ctx.bin
+    core = resolver_core(ctx)
+    n = 0
+    if core is None:
+        r.anchor_missing("resolver core", "not found by role")
+    else:
+        for f in crate.real_fns():
+            if f.kind not in ("fn", "method") or f.ret != core.ret or f.id == core.id:
+                continue
+            sites = [(bb, c) for bb, c in f.calls() if c.get("res") == core.id and c.get("clos")]
+            if not sites:
+                continue
+            n += 1
+            dests = {place_local(c["dest"]) for _bb, c in sites}
+            other = []
+            for d in _ret_sources(f):
+                if d[0] == "call" and place_local(d[2]["dest"]) in dests | {0} and d[2].get("res") == core.id:
+                    continue
+                if d[0] == "assign" and d[3][0] == "agg" and not d[3][2]:
+                    continue  # None
+                other.append(d)
+            key = "R5k|%s|second source" % f.id
+            if other:
+                what = other[0][2].get("res") if other[0][0] == "call" else other[0][3][0] if other[0][0] == "assign" else other[0][0]
+                r.violate(key, "%s returns a definition that does not come from the resolver core on some path (%s)" % (f.id, what))
+            else:
+                r.ok(sample={"entry_point": f.id.split("::")[-1]})
+        r.floor("entry points of the cascade", n, 2)
+    # (ii)
+    comp = set()
+    for f in crate.real_fns():
+        if f.kind in ("fn", "method") and "HashSet<std::string::String>" in f.ret and \
+                any("HashSet<std::path::PathBuf>" in f.local_ty(i) and f.local_ty(i).startswith("&mut") for i in range(1, f.argc + 1)):
+            comp.add(f.id)
+    r.counts["import_closure_computations"] = len(comp)
+    m = 0
+    for f in crate.real_fns():
+        if f.kind not in ("fn", "method") or f.ret != "bool" or f.id in comp:
+            continue
+        sites = [(bb, c) for bb, c in f.calls() if c.get("res") in comp]
+        if not sites:
+            continue
+        m += 1
+        other = []
+        for d in _ret_sources(f):
+            if d[0] == "call" and re.search(r"HashSet::<T, S>::contains$|::contains$", d[2].get("res") or ""):
+                continue
+            if d[0] == "assign" and d[3][0] == "use" and (op_const(d[3][1]) or {}).get("v") in ("0", "false", False, 0):
+                continue  # `false`: under-approximation only where the closure is not available
+            other.append(d)
+        key = "R5k|%s|second source" % f.id
+        if other:
+            what = other[0][2].get("res") if other[0][0] == "call" else "%s" % (other[0][3][0],) if other[0][0] == "assign" else other[0][0]
+            r.violate(key, "%s decides `imported` on some path without asking the import closure (%s)" % (f.id, what))
+        else:
+            r.ok(sample={"import_predicate": f.id.split("::")[-1]})
+    r.floor("predicates over the import closure", m, 1)
     return r
